@@ -551,7 +551,7 @@ theorem C11_convolve_guards_imply_pre (env : Env) :
 
 /-- **C11+C10 (convolve), links extracted.** Let the wrapper guard of `convolve.convolve` pass on ndarrays `f`,
 `weights` (well-formed descriptors, `f` with at least one element per axis) and let `envN` be linked by the extracted
-links of the call of `_convolve.convolve` (`array` is `f` itself, `filter` a rank-and-shape preserving conversion of
+links of the call of `_convolve.convolve` (`array` is `f` or, since 4f4d652 (`out=` sharing memory with `f`), a copy of it: the link is `norm f`, same rank and shape; `filter` a rank-and-shape preserving conversion of
 `weights`, `output` from `_get_output(f, out)`, `mode` a value of `mode2int`). Then the filter has the rank of the array,
 the output has its shape and is contiguous, the mode is one of the six border modes, and for EVERY border mode the offset
 table the filter iterator builds (C10 B1, `filterIdx`) holds only the flag or indices inside the array. -/
@@ -570,7 +570,7 @@ theorem C11_convolve_safe (envW envN : Env) (m : Mode)
     simp [Linked, Generated.links_convolve_convolve__convolve_convolve] at hl
     exact hl.2.2.2
   simp [Linked, Generated.links_convolve_convolve__convolve_convolve, Link.holds, isArr, hf, hwk] at hl
-  obtain ⟨ha, ⟨-, hfs⟩, ⟨⟨-, hos⟩, hoc⟩, -⟩ := hl
+  obtain ⟨⟨-, ha⟩, ⟨-, hfs⟩, ⟨⟨-, hos⟩, hoc⟩, -⟩ := hl
   unfold Desc.wf at wff wfw
   have hlen : (envN "filter").shape.length = (envN "array").shape.length := by rw [hfs, ha]; omega
   have := C10_filter_table_ok m (envN "array").shape (envN "filter").shape (by rw [ha]; exact hpos) hlen
